@@ -164,6 +164,9 @@ type axisState struct {
 	seen    bool
 	lastRaw int32
 	lastMap int
+	lastCh  int
+	// lastEpoch: the value of Dev.destEpoch at the last event of this axis
+	lastEpoch int
 	last    *big.Rat
 	dir     int   // key emulation: 0 off, +1, -1
 	actDir  int   // action axis: the direction whose action the axis currently holds
@@ -195,6 +198,9 @@ type Dev struct {
 	everMany    map[Pair]bool
 	ActHeld     map[string]bool
 	actCnt      map[string]int // keys down per action
+	// destEpoch counts the presses of channel and mapping actions (whether they changed anything or not): positions
+	// of an axis before and after one of them may have different destinations
+	destEpoch int
 	Learning    bool
 	axes        map[axisKey]*axisState
 	Recv        *Receiver
@@ -578,6 +584,9 @@ func (m *Dev) actionKey(a string, press bool, got []Msg) *Violation {
 	partner, hasPartner := pairOf(a)
 	m.ActHeld[a] = true
 	m.actCnt[a]++
+	if strings.HasPrefix(a, "channel_") || strings.HasPrefix(a, "mapping_") {
+		m.destEpoch++
+	}
 	if hasPartner && m.ActHeld[partner] {
 		m.probe("pair_reset")
 		switch a {
